@@ -18,6 +18,8 @@
          -> [[0]] (the builder raised) or [[1; state; [[accepted; state] ...]]],
          state = [removed_nodes; edges sorted; is-completed observer of the
          updater: [] or [[flags_m; flags_j; remaining_m; remaining_j]]].
+    3  [I; fs; recipe; pre; rm_m; rm_j; events]
+         as 1, on a graph assembled from the public building blocks (recipe: see CmdC16.v, command 6)
     2  [I; fs; nodes; removed0; [[rows; removed; edges] ...]]
          oracle: the clauses of spec/ResidualSpec.v on the OBSERVED graph after
          every dispatch, dispatcher state recomputed from the observed rows.
@@ -78,6 +80,19 @@ Definition cmd_run (v : val) : val :=
       VL [VI 1; enc_state u; VL (snd res)]
   end.
 
+(** Command 3: as command 1, on a graph assembled from the public building blocks (CmdC16's recipes)
+    instead of a built-in builder: [I; fs; recipe; pre; rm_m; rm_j; events]. *)
+Definition cmd_run_recipe (v : val) : val :=
+  let I := dec_instance (vnth v 0) in
+  let fs := asLof dec_fname (vnth v 1) in
+  match build_recipe I (asL (vnth v 2)) with
+  | None => VL [VI 0]
+  | Some g =>
+      let u := rgu_fresh I (asLof dec_pre (vnth v 3)) (asB (vnth v 4)) (asB (vnth v 5)) g in
+      let res := fold_left (run_event17 I u) (asL (vnth v 6)) (rg_world fs (init_d I) u, []) in
+      VL [VI 1; enc_state u; VL (snd res)]
+  end.
+
 Definition oracle_step (I : instance) (fs : list fname) (nodes : list (nat * node))
            (acc : list bool * list val) (st : val) : list bool * list val :=
   let S := dec_sched (vnth st 0) in
@@ -103,5 +118,6 @@ Definition run_c17 (c : Z) (v : val) : val :=
   match c with
   | 1 => cmd_run v
   | 2 => cmd_oracle17 v
+  | 3 => cmd_run_recipe v
   | _ => VL []
   end.
